@@ -266,7 +266,9 @@ func (s *Server) manifestPut(repoStr, arg string) http.HandlerFunc {
 		rLimit := io.LimitReader(r.Body, s.conf.API.Manifest.Limit+1)
 		mRaw, err := io.ReadAll(rLimit)
 		if err != nil {
-			w.WriteHeader(http.StatusInternalServerError)
+			// only the request body is read here
+			w.WriteHeader(http.StatusBadRequest)
+			_ = types.ErrRespJSON(w, types.ErrInfoManifestInvalid("failed to read request body"))
 			s.log.Info("failed to read manifest", "repo", repoStr, "arg", arg, "err", err)
 			return
 		}
